@@ -8,7 +8,7 @@ import subprocess
 from .weave import REPO
 
 _KANI_CACHE = {}
-PROBED = {'C04', 'C12', 'C07', 'C15', 'C13'}
+PROBED = {'C04', 'C12', 'C07', 'C15', 'C13', 'C14'}
 
 
 def _run(env_extra, timeout=1500):
@@ -20,6 +20,7 @@ def _run(env_extra, timeout=1500):
     out = p.stdout.decode(errors='replace')
     fails = []
     ok = False
+    stats = None
     for ln in out.split('\n'):
         m = re.search(r'PROBE-FAIL (\{.*\})\s*$', ln)
         if m:
@@ -29,7 +30,20 @@ def _run(env_extra, timeout=1500):
                 pass
         if 'PROBE-OK' in ln:
             ok = True
-    return dict(rc=p.returncode, fails=fails, ok=ok, tail=out[-3000:], cmd=' '.join(cmd))
+        m = re.search(r'PROBE-STATS (\{.*\})\s*$', ln)
+        if m:
+            try:
+                stats = json.loads(m.group(1))
+            except Exception:
+                pass
+    return dict(rc=p.returncode, fails=fails, ok=ok, stats=stats, tail=out[-3000:], cmd=' '.join(cmd))
+
+
+def bounded(pid):
+    """bounded exploration of a clause no contract reaches (labelled bounded, never counted as proved)"""
+    r = _run({'VT_MODE': 'bounded', 'VT_PROP': pid})
+    r['cmd'] = 'VT_MODE=bounded VT_PROP=%s %s' % (pid, r['cmd'])
+    return r
 
 
 def replay_input(pid, inp):
